@@ -33,8 +33,9 @@ def run_mutant(prop, mutant, keep=False, tier='quick', base='/repo'):
         shutil.rmtree(root, ignore_errors=True)
         return {'name': name, 'verdict': 'infra-error', 'rc': -1, 'wall_s': 0.0, 'lines': [str(ex_)[:200]]}, ''
     evdir = os.path.join(root, '_evidence')
-    env = dict(os.environ, VERIF_REPO=root, VERIF_EVIDENCE_DIR=evdir,
-               VERIF_REPLAY_TARGET=os.path.join(CACHE, 'mutants', 'replay-target'))
+    # every mutant gets its own build directory for the replay driver: parallel mutants must never run each other's binary
+    rt = os.path.join(CACHE, 'mutants', 'replay-target-' + tag)
+    env = dict(os.environ, VERIF_REPO=root, VERIF_EVIDENCE_DIR=evdir, VERIF_REPLAY_TARGET=rt)
     t0 = time.time()
     verif = os.path.dirname(os.path.dirname(os.path.abspath(__file__)))
     p = subprocess.run(['python3-vt', '-m', 'msx.cli', prop, '--tier', tier], cwd=verif, env=env, stdout=subprocess.PIPE, stderr=subprocess.STDOUT, text=True)
@@ -48,6 +49,8 @@ def run_mutant(prop, mutant, keep=False, tier='quick', base='/repo'):
         verdict = 'infra-error'
     res = {'name': name, 'verdict': verdict, 'rc': p.returncode, 'wall_s': round(time.time() - t0, 1),
            'lines': [l for l in out.split('\n') if l.startswith(('VIOLATION', 'UNCONFIRMED', '  obligation', '[' + prop))][:6]}
+    shutil.rmtree(rt, ignore_errors=True)
+    shutil.rmtree(os.path.join(CACHE, 'replay-crate-' + hashlib.sha256(os.path.realpath(root).encode()).hexdigest()[:10]), ignore_errors=True)
     if not keep:
         shutil.rmtree(root, ignore_errors=True)
         shutil.rmtree(os.path.join(CACHE, 'mutants', 'cache-' + tag), ignore_errors=True)
